@@ -86,6 +86,35 @@ fn block_net(rng: &mut Rng, o: &GenOpts, spatial: bool, loops: usize, inskips: b
     Some((spec, input, out))
 }
 
+/// a flat network with TWO feedback blocks (different depth, loop count, skips and accumulation),
+/// optionally separated by a dense layer, followed by a dense output layer
+pub fn two_block_net(rng: &mut Rng, r: usize, wkind: u8) -> (NetSpec, Sh, Sh) {
+    let n = rng.range(2, 4);
+    let input = Sh::Flat(n);
+    let mut spec = NetSpec::new(input.to_shape());
+    let mut ws = vec![];
+    let acts = [Act::Tanh, Act::Sigmoid, Act::Linear];
+    let mut push_block = |spec: &mut NetSpec, ws: &mut Vec<LW>, rng: &mut Rng, nl: usize, loops: usize, insk: bool, outsk: bool, acc: Acc| {
+        let ls: Vec<Simple> = (0..nl).map(|_| Simple::Dense { out: n, act: *rng.pick(&acts), bias: rng.coin(), dropout: None }).collect();
+        let bw: Vec<W> = ls.iter().map(|l| rand_w(rng, l, Sh::Flat(n), wkind)).collect();
+        ws.push(LW::Block(bw));
+        spec.layers.push(LayerSpec::Block { layers: ls, loops, inskips: insk, outskips: outsk, acc });
+    };
+    push_block(&mut spec, &mut ws, rng, 1 + r % 2, 1 + r % 3, r % 4 == 1, r % 4 == 2, ALL_ACCS[r % 5]);
+    if r % 3 == 0 {
+        let d = Simple::Dense { out: n, act: Act::Tanh, bias: true, dropout: None };
+        ws.push(LW::One(rand_w(rng, &d, Sh::Flat(n), wkind)));
+        spec.layers.push(LayerSpec::One(d));
+    }
+    push_block(&mut spec, &mut ws, rng, 2 - r % 2, 1 + (r + 1) % 3, r % 4 == 3, r % 4 == 1, ALL_ACCS[(r + 2) % 5]);
+    let outn = rng.range(1, 3);
+    let d = Simple::Dense { out: outn, act: Act::Linear, bias: true, dropout: None };
+    ws.push(LW::One(rand_w(rng, &d, Sh::Flat(n), wkind)));
+    spec.layers.push(LayerSpec::One(d));
+    spec.weights = Some(ws);
+    (spec, input, Sh::Flat(outn))
+}
+
 pub fn gen_c11(rng: &mut Rng, thorough: bool) -> Vec<Tagged> {
     let mut out: Vec<Tagged> = vec![];
     let mut o = GenOpts::default();
@@ -106,6 +135,11 @@ pub fn gen_c11(rng: &mut Rng, thorough: bool) -> Vec<Tagged> {
                 }
             }
         }
+    }
+    // two blocks in one network: each computes ITS repeated sequence
+    for r in 0..(if thorough { 40 } else { 10 }) {
+        let (spec, input, _) = two_block_net(rng, r, 1);
+        out.push(("two-blocks-fwd".into(), Case::Net(spec, NetCmd::Forward(rand_input(rng, input, 0)))));
     }
     out
 }
@@ -137,6 +171,24 @@ pub fn gen_c10(rng: &mut Rng, thorough: bool) -> Vec<Tagged> {
                 }
             }
         }
+    }
+    // two blocks in one network: both stay tied, the parameter count sums one repetition of each
+    for r in 0..(if thorough { 30 } else { 8 }) {
+        let (mut spec, input, outsh) = two_block_net(rng, r, 2);
+        for l in spec.layers.iter_mut() {
+            if let LayerSpec::Block { inskips, outskips, acc, .. } = l {
+                *inskips = false;
+                *outskips = false;
+                if *acc == Acc::Overwrite {
+                    *acc = Acc::Mean;
+                }
+            }
+        }
+        spec.opt = rand_opt(rng, r % 5);
+        spec.obj = Obj::MSE;
+        let data: Vec<(Tensor, Tensor)> = (0..2).map(|_| (rand_input(rng, input, 2), rand_target(rng, outsh, Obj::MSE))).collect();
+        out.push(("tied-two-blocks".into(), Case::Net(spec.clone(), NetCmd::Learn { data, val: None, batch: 1 + r % 2, epochs: 2 })));
+        out.push(("tied-two-blocks-params".into(), Case::Net(spec, NetCmd::Shapes)));
     }
     out
 }
